@@ -106,8 +106,9 @@ def cases(draw):
         c["name"] = draw(st.sampled_from(["x-ext", "foo", "custom", "b65"]))
         c["value"] = draw(st.sampled_from([1, "v", [1], {"a": 1}, None]))
     elif rule in ("custom-ok", "custom-type", "custom-required"):
-        c["name"] = draw(st.sampled_from(["custom", "x-ext"]))
-        c["ctype"] = draw(st.sampled_from(["str", "int", "bool", "list[str]", "url", "jwk"]))
+        # a caller may also re-register a standard parameter, e.g. to make kid or cty mandatory
+        c["name"] = draw(st.sampled_from(["custom", "x-ext"] + (["kid", "cty"] if rule == "custom-required" else [])))
+        c["ctype"] = "str" if c["name"] in ("kid", "cty") else draw(st.sampled_from(["str", "int", "bool", "list[str]", "url", "jwk"]))
         good = {"str": "v", "int": 5, "bool": False, "list[str]": ["a"], "url": "https://a/b", "jwk": {"kty": "oct"}}[c["ctype"]]
         bad = {"str": 5, "int": "5", "bool": "no", "list[str]": [1], "url": 7, "jwk": "oct"}[c["ctype"]]
         c["value"] = good if rule != "custom-type" else bad
@@ -120,6 +121,12 @@ def cases(draw):
     elif rule == "b64-no-crit":
         if not rfc7797:
             c["rule"] = "none"
+    if kind == "jwe" and ser == "general" and direction == "consume" and c["pos"] == "recipient" and alg in ("A128KW", "A128GCMKW", "PBES2-HS256+A128KW"):
+        # the header under test belongs to the SECOND of two recipients (the first one is clean and decryptable);
+        # every recipient must be valid ("all") or one suffices ("any": verify_all_recipients=False)
+        c["multi"] = draw(st.sampled_from([None, "all", "any"]))
+        if c["multi"] and rule in ("custom-ok", "custom-type"):
+            c["required"] = False     # the clean first recipient does not carry the caller-registered parameter
     return c
 
 
@@ -189,9 +196,9 @@ def registries(c):
         if hr is None and strict and c["seed"] % 2:
             return {"algorithms": ALL_JWS}
         return {"registry": cls(header_registry=hr, algorithms=ALL_JWS, strict_check_header=strict)}
-    if hr is None and strict and c["seed"] % 2:
+    if hr is None and strict and c["seed"] % 2 and c.get("multi") != "any":
         return {"algorithms": jweplan.ALL_NAMES}
-    return {"registry": jwe.JWERegistry(header_registry=hr, algorithms=jweplan.ALL_NAMES, strict_check_header=strict)}
+    return {"registry": jwe.JWERegistry(header_registry=hr, algorithms=jweplan.ALL_NAMES, strict_check_header=strict, verify_all_recipients=c.get("multi") != "any")}
 
 
 def prelude():
@@ -286,6 +293,11 @@ def run_case(c) -> dict:
                     tok, _ = jweplan.ref_encrypt(base, c["seed"], ("canonical", 0), additions_in_protected=(c["pos"] == "protected"))
                     tok = _rewrite(tok, c, prot)
                 else:
+                    if c.get("multi"):
+                        clean = {"alg": alg, "key": gk.key_to_record(rkey), "header": None, "kid": None}
+                        if alg.startswith("PBES2"):
+                            clean["p2c"], clean["p2s"] = 8, "8899aabbccddeeff"
+                        plan["recipients"] = [clean, recd]
                     tok, _ = jweplan.ref_encrypt(plan, c["seed"], ("canonical", 0), additions_in_protected=(c["pos"] == "protected"))
                 if c["ser"] == "compact":
                     jwe.decrypt_compact(tok, key, **kw)
@@ -371,8 +383,9 @@ def run_shard(ctx, spec):
             ctx.dontcare(c["rule"])
             return
         exp = f.pop("_exp", "?")
-        ctx.case((c["rule"], c.get("name"), c.get("jtype"), c.get("ctype"), c["pos"], c["dir"], c["kind"], c["ser"], c["rfc7797"], c["alg"]),
-                 cls=[f"rule:{c['rule']}", f"dir:{c['dir']}", f"kind:{c['kind']}", f"pos:{c['pos']}", "must-accept" if exp == "accept" else "must-reject"],
+        ctx.case((c["rule"], c.get("name"), c.get("jtype"), c.get("ctype"), c["pos"], c["dir"], c["kind"], c["ser"], c["rfc7797"], c["alg"], c.get("multi")),
+                 cls=[f"rule:{c['rule']}", f"dir:{c['dir']}", f"kind:{c['kind']}", f"pos:{c['pos']}", "must-accept" if exp == "accept" else "must-reject"] +
+                 ([f"second-recipient:{c['multi']}"] if c.get("multi") else []),
                  sample=c)
         for k, w in f.items():
             ctx.finding(k, w, c)
